@@ -148,21 +148,33 @@ def localImplicit (z : Zone) : List NfId :=
    | some (caller, _) => if caller = FRAME_OWNED_MARKER then [] else [NfId.mk GC_BADGE caller]
    | none => [])
 
-/-- `Authorization::auth_zone_stack_matches` -/
-def stackMatches (check : Check) (z : Zone) : Except Err Bool :=
-  let loc := localImplicit z
-  -- `!local.is_empty() && check(&[], &{}, local)?`
-  match (if loc.isEmpty then Except.ok false else check [] [] loc) with
+/-- `if a? { return Ok(true) } b` -/
+def orE (a b : Except Err Bool) : Except Err Bool :=
+  match a with
   | .error e => .error e
   | .ok true => .ok true
-  | .ok false =>
-    match (match z.gc with | some (_, leaf) => globalMatches check leaf | none => Except.ok false) with
-    | .error e => .error e
-    | .ok true => .ok true
-    | .ok false =>
-      match z.parent with
-      | some p => globalMatches check p
-      | none => .ok false
+  | .ok false => b
+
+/-- `!local.is_empty() && check(&[], &{}, local)?` -/
+def localCheck (check : Check) (z : Zone) : Except Err Bool :=
+  if (localImplicit z).isEmpty then .ok false else check [] [] (localImplicit z)
+
+/-- `if let Some((_, leaf)) = &auth_zone.global_caller { global_auth_zone_matches(leaf)? }` -/
+def gcCheck (check : Check) (z : Zone) : Except Err Bool :=
+  match z.gc with
+  | some (_, leaf) => globalMatches check leaf
+  | none => .ok false
+
+/-- `if let Some(parent) = auth_zone.parent { global_auth_zone_matches(parent)? }` -/
+def parentCheck (check : Check) (z : Zone) : Except Err Bool :=
+  match z.parent with
+  | some p => globalMatches check p
+  | none => .ok false
+
+/-- `Authorization::auth_zone_stack_matches`: local implicit proofs, then the global caller's
+    zones, then the direct caller's zones; the first `true` (or error) ends the walk -/
+def stackMatches (check : Check) (z : Zone) : Except Err Bool :=
+  orE (localCheck check z) (orE (gcCheck check z) (parentCheck check z))
 
 /-- `auth_zone_stack_matches_rule` -/
 def stackMatchesRule (z : Zone) (x : RoN) : Except Err Bool := stackMatches (checkRule x) z
@@ -336,27 +348,70 @@ def createAuthZone (caller : Caller) (ctxChange : Bool) (simRes : List Nat) (imp
     | .root => none | .function _ _ cz => some cz | .method _ _ cz => some cz
   .mk [] simRes implicitNf pkg gc parent
 
+/-- the temporary zone of `create_temp_child_auth_zone_for_verify_parent` (VERIFY_PARENT):
+    no package, no parent, global caller = (the processor blueprint, the parent intent's zone) -/
+def verifyParentZone (bp : Nat) (parentZone : Zone) : Zone :=
+  .mk [] [] [] none (some (bp, parentZone)) none
+
+/-! ### Manifest-level auth-zone instructions (`auth_zone_substates.rs`) -/
+
+/-- index of `SECP256K1_SIGNATURE_RESOURCE` / `ED25519_SIGNATURE_RESOURCE` -/
+def SECP_SIG : Nat := 2
+def ED_SIG : Nat := 3
+
+/-- `AuthZone::pop` -/
+def Zone.pop : Zone → Option Zone
+  | .mk p s i k g pa => if p.isEmpty then none else some (.mk p.dropLast s i k g pa)
+
+/-- `AuthZone::remove_signature_proofs` -/
+def Zone.removeSignatureProofs : Zone → Zone
+  | .mk p s i k g pa =>
+    .mk p (s.filter (fun x => x != SECP_SIG && x != ED_SIG))
+      (i.filter (fun x => x.res != SECP_SIG && x.res != ED_SIG)) k g pa
+
+/-- `AuthZone::remove_regular_proofs` -/
+def Zone.removeRegularProofs : Zone → Zone
+  | .mk _ s i k g pa => .mk [] s i k g pa
+
 /-! ### `RoleAssignmentNativePackage::verify_access_rule` (limits on stored rules) -/
 
+inductive LimitErr where
+  | depth   -- ExceededMaxAccessRuleDepth
+  | nodes   -- ExceededMaxAccessRuleNodes
+deriving DecidableEq, Repr, Inhabited
+
+/-- `AccessRuleVerifier::visit`: depth check first, then the node counter -/
+def visitNode (maxDepth maxNodes depth cnt : Nat) : Except LimitErr Nat :=
+  if depth > maxDepth then .error .depth
+  else if cnt + 1 > maxNodes then .error .nodes
+  else .ok (cnt + 1)
+
 mutual
-/-- pre-order visit: `(node counter, ok)`; `depth > maxDepth` or `counter > maxNodes` fails -/
-def visitComp (maxDepth maxNodes : Nat) (depth : Nat) (cnt : Nat) : Comp → Option Nat
-  | .basic _ => if depth > maxDepth then none else if cnt + 1 > maxNodes then none else some (cnt + 1)
-  | .anyOf rs => if depth > maxDepth then none else if cnt + 1 > maxNodes then none else
-      visitList maxDepth maxNodes (depth + 1) (cnt + 1) rs
-  | .allOf rs => if depth > maxDepth then none else if cnt + 1 > maxNodes then none else
-      visitList maxDepth maxNodes (depth + 1) (cnt + 1) rs
-def visitList (maxDepth maxNodes : Nat) (depth : Nat) (cnt : Nat) : List Comp → Option Nat
-  | [] => some cnt
+/-- `dfs_traverse_recursive` with the verifier: pre-order, returns the node counter -/
+def visitComp (maxDepth maxNodes : Nat) (depth : Nat) (cnt : Nat) : Comp → Except LimitErr Nat
+  | .basic _ => visitNode maxDepth maxNodes depth cnt
+  | .anyOf rs =>
+    match visitNode maxDepth maxNodes depth cnt with
+    | .error e => .error e
+    | .ok c => visitList maxDepth maxNodes (depth + 1) c rs
+  | .allOf rs =>
+    match visitNode maxDepth maxNodes depth cnt with
+    | .error e => .error e
+    | .ok c => visitList maxDepth maxNodes (depth + 1) c rs
+def visitList (maxDepth maxNodes : Nat) (depth : Nat) (cnt : Nat) : List Comp → Except LimitErr Nat
+  | [] => .ok cnt
   | r :: rs =>
     match visitComp maxDepth maxNodes depth cnt r with
-    | none => none
-    | some c => visitList maxDepth maxNodes depth c rs
+    | .error e => .error e
+    | .ok c => visitList maxDepth maxNodes depth c rs
 end
 
-/-- `verify_access_rule(rule).is_ok()` -/
-def ruleWithinLimits (maxDepth maxNodes : Nat) : Rule → Bool
-  | .prot c => (visitComp maxDepth maxNodes 0 0 c).isSome
-  | _ => true
+/-- `verify_access_rule(rule)` -/
+def verifyAccessRule (maxDepth maxNodes : Nat) : Rule → Except LimitErr Unit
+  | .prot c => match visitComp maxDepth maxNodes 0 0 c with | .error e => .error e | .ok _ => .ok ()
+  | _ => .ok ()
+
+def ruleWithinLimits (maxDepth maxNodes : Nat) (r : Rule) : Bool :=
+  match verifyAccessRule maxDepth maxNodes r with | .ok _ => true | .error _ => false
 
 end Radix.Auth
